@@ -146,6 +146,7 @@ pub struct GraphType {
 
 pub open spec fn nbr_seq(dag: &GraphType, n: usize, d: Direction, s: Seq<usize>) -> bool {
     &&& s.no_duplicates()
+    &&& s.len() < 0x7fff_ffff  // A-arith: a node has fewer than 2^31 neighbours (i32 counters in the engine)
     &&& forall|m: usize| #![trigger s.contains(m)] #![trigger dag.is_nbr(n, d, m)]
         s.contains(m) <==> dag.is_nbr(n, d, m)
 }
@@ -215,6 +216,18 @@ impl GraphType {
             r.obeys_prophetic_iter_laws(),
             r.decrease().is_some(),
             nbr_seq(self, n, d, r.remaining()),
+    {
+        unimplemented!()
+    }
+
+    #[verifier::external_body]
+    pub fn edge_weight_mut(&mut self, a: usize, b: usize) -> (r: Option<&mut EdgeInfo>)
+        ensures
+            r is Some <==> old(self).has_edge(a, b),
+            r is Some ==> *r.unwrap() == old(self).edges()[(a, b)]
+                && final(self).edges() == old(self).edges().insert((a, b), *final(r.unwrap())),
+            r is None ==> final(self).edges() == old(self).edges(),
+            final(self).nodes_set() == old(self).nodes_set(),
     {
         unimplemented!()
     }
@@ -345,6 +358,7 @@ pub broadcast axiom fn axiom_split_some(s: Seq<char>)
     ensures (#[trigger] str_split_once(s, "!!!"@)) is Some;
 
 pub broadcast group group_verif_str_axioms {
+    axiom_cow_str_deref,
     axiom_to_string_string,
     axiom_pat_str,
     axiom_pat_string,
@@ -442,3 +456,17 @@ impl vstd::std_specs::cmp::PartialEqSpecImpl for SignalKind {
     open spec fn obeys_eq_spec() -> bool { true }
     open spec fn eq_spec(&self, other: &SignalKind) -> bool { *self == *other }
 }
+
+// ---- R8(b): result of try_finding_renamed_multi_output_job (body not verified)
+pub uninterp spec fn renamed_id(missing_up: Seq<char>, down: Seq<char>, h: Map<String, String>) -> Option<Seq<char>>;
+
+pub assume_specification<'a>[ <Cow<'a, str> as From<&'a String>>::from ](s: &'a String) -> (r: Cow<'a, str>)
+    ensures r@ == s@;
+
+pub uninterp spec fn cow_deref_spec<'a, 'b, B: ?Sized + ToOwned>(s: &'b Cow<'a, B>) -> &'b B;
+
+pub assume_specification<'a, 'b, B: ?Sized + ToOwned>[ <Cow<'a, B> as core::ops::Deref>::deref ](s: &'b Cow<'a, B>) -> (r: &'b B)
+    ensures r == cow_deref_spec(s);
+
+pub broadcast axiom fn axiom_cow_str_deref<'a, 'b>(s: &'b Cow<'a, str>)
+    ensures (#[trigger] cow_deref_spec::<str>(s))@ == s@;
